@@ -60,6 +60,18 @@ func buildC01Case(r *Rng, size, nkeys int, name string, c *Ctx, fixedPlacement f
 				}
 			}
 			url := fmt.Sprintf("node/%s/%s/key/%s", n.uuid, name, key)
+			// several operations on one datum within one version: the last one decides
+			if fixedPlacement == nil && e != 0 && r.Chance(0.35) {
+				if e == 'T' {
+					Post(url, []byte("overwritten-"+valueFor(n.v)))
+					cs.hist = append(cs.hist, fmt.Sprintf("POST key %s at v%d (to be deleted in the same version)", key, n.v))
+					c.Count("place.value-then-deletion")
+				} else {
+					Delete(url)
+					cs.hist = append(cs.hist, fmt.Sprintf("DELETE key %s at v%d (to be rewritten in the same version)", key, n.v))
+					c.Count("place.deletion-then-value")
+				}
+			}
 			switch e {
 			case 'V':
 				if r.Chance(0.2) && data != nil { // raw store path (what every other datatype uses)
